@@ -20,11 +20,23 @@ Fixpoint take_files (n : nat) (args : list text) : list (text * text) :=
 Definition parse_files (args : list text) : list (text * text) :=
   match args with n :: r => take_files (N.to_nat (parse_dec n)) r | [] => [] end.
 
-Definition fs_of (files : list (text * text)) (p : text) : option text := assoc_text p files.
-
 (* the oracle runs with the scratch directory as working directory; its name never reaches an observable
    unless the program uses _ডাইরেক্টরি, and those streams pass the directory explicitly *)
 Definition default_cwd : text := [47;119].   (* "/w" *)
+
+(* the files of a case are given by paths relative to the working directory; an absolute spelling of such a path (an
+   import written with _ডাইরেক্টরি) names the same file *)
+Fixpoint strip_prefix (pre p : text) : option text :=
+  match pre, p with
+  | [], _ => Some p
+  | a :: pre', b :: p' => if N.eqb a b then strip_prefix pre' p' else None
+  | _ :: _, [] => None
+  end.
+Definition fs_of (files : list (text * text)) (p : text) : option text :=
+  match assoc_text p files with
+  | Some c => Some c
+  | None => match strip_prefix (default_cwd ++ [47]) p with Some rel => assoc_text rel files | None => None end
+  end.
 
 (* fuel bounds the recursion depth of the parser model: statements nest in the continuation of pprogram and every
    token adds at most one ladder descent; generous, and an exhausted fuel shows up as "hang" in the comparison *)
